@@ -48,6 +48,13 @@ def build_input(call):
         return range(base, base + n)
     if kind == 'gen':
         return (mk(i) for i in range(n + extra))
+    if kind == 'gen_raising':
+        def g():
+            for i in range(n):
+                if i == call['raise_at']:
+                    raise RuntimeError('input iterable broke')
+                yield mk(i)
+        return g()
     if kind == 'ndarray':
         import numpy as np
         if call.get('ndim', 1) == 2:
@@ -159,6 +166,42 @@ def run_call(pool, call, res):
             out['value'] = vals
             out['ready'] = [a.ready() for a in asyncs]
             out['callbacks'] = log
+        elif kind == 'lookahead':
+            # counting wrappers around the input generator and the consumer loop
+            n = call['n']
+            drawn = [0]
+
+            def counting():
+                for i in range(n):
+                    drawn[0] += 1
+                    yield i
+            p2 = dict(params)
+            if call.get('known_len', True):
+                p2['iterable_len'] = n
+            gen = getattr(pool, call.get('variant', 'imap_unordered'))(func, counting(), **p2)
+            delivered = 0
+            worst = 0
+            idle_draws = 0
+            pattern = call.get('consumer', [0.0])
+            got = []
+            while True:
+                before = drawn[0]
+                try:
+                    x = next(gen)
+                except StopIteration:
+                    break
+                delivered += 1
+                got.append(x)
+                # ordered imap buffers out-of-order results: only the unordered variant is measured for the bound
+                worst = max(worst, drawn[0] - delivered)
+                after = drawn[0]
+                d = pattern[delivered % len(pattern)]
+                if d:
+                    time.sleep(d)
+                if drawn[0] != after:
+                    idle_draws += 1          # the input advanced while the consumer was not asking
+            out['value'] = got
+            out['lookahead'] = {'worst': worst, 'idle_draws': idle_draws, 'drawn': drawn[0], 'delivered': delivered}
         elif kind == 'setter':
             getattr(pool, call['name'])(*call.get('args', []))
             out['value'] = None
